@@ -63,7 +63,7 @@ def run_case(data):
                               (2, 'local-end'), (2, 'peer-end'), (3, 'peer-enable-push'), (1, 'cleanup')])
         else:
             op = ch.weighted([(5, 'open'), (10, 'recv-push'), (2, 'recv-push-bad-list'), (3, 'pushed-response'),
-                              (2, 'local-end'), (2, 'peer-end'), (2, 'local-enable-push'), (2, 'local-ack'),
+                              (2, 'local-end'), (2, 'peer-end'), (4, 'local-enable-push'), (3, 'local-ack'),
                               (1, 'send-on-pushed'), (1, 'cleanup'), (2, 'response')])
         if op == 'peer-open':
             w.recv_headers(w.next_peer_id(), 'final', ch.chance(64))
@@ -177,8 +177,9 @@ def run_case(data):
             else:
                 w.push(sid, w.next_local_id())
         elif op == 'local-enable-push':
-            if len(pending_push_setting) >= 2:
+            if len(pending_push_setting) >= 3:
                 continue
+            # any value, including the current or the last announced one again: every frame needs its own ACK
             v = ch.int(0, 1)
             o = w.s.call('update_settings', {wire.S_ENABLE_PUSH: v})
             r.step('update_settings ENABLE_PUSH', v, o.brief())
